@@ -5,6 +5,7 @@ import JV.Spec.BinFormats
 import JV.Model.Cbor
 import JV.Model.Msgpack
 import JV.Model.Ubjson
+import JV.Model.Bson
 namespace JV
 namespace Drv
 open Spec.Cbor
@@ -119,6 +120,15 @@ def binaryLine : List String → String
     -- bin menc ubjson <wire value (core)>  →  the bytes encode_ubjson writes for it | err (an integer above 2^63-1)
     match cvOfTokens toks with
     | some (v, []) => if Model.Ubjson.representable v then "ok x" ++ Wire.hexOfBytes (Model.Ubjson.encode v) else "err"
+    | _ => ""
+  | "menc" :: "bson" :: toks =>
+    -- bin menc bson <wire value (core)>  →  the bytes encode_bson writes for it | err (a scalar root, an integer above 2^63-1, text that
+    -- is not UTF-8, nesting deeper than 1024)
+    match cvOfTokens toks with
+    | some (v, []) =>
+      (match Model.Bson.encode v with
+       | some b => if Model.Bson.representable v then "ok x" ++ Wire.hexOfBytes b else "err"
+       | none => "err")
     | _ => ""
   | _ => ""
 
